@@ -320,6 +320,7 @@ MANIFEST = dict(
     text="Bounded model checking: every Boolean skeleton within the node bound over 3 Boolean fluents, numeric comparison/equality atoms and constant-only atoms, "
          "for EVERY value of the two integer constants (the constant-only atoms fold to true/false on solver-chosen sides). NNF and DNF must be in normal form and "
          "equivalent to the input under every interpretation. A choice-only family with concrete constants extends the structural bound to 7 nodes.",
-    note="Trusted: vf/exprsem.py as the meaning of Boolean/comparison expressions, CrossHair's int model, z3. The recorded defect (Dnf.walk_and returns [] when a product "
-         "conjunction simplifies to true) is listed in known_findings.txt under a signature restricted to inputs with a true constant-only literal under a conjunction.",
+    note="Trusted: vf/exprsem.py as the meaning of Boolean/comparison expressions, CrossHair's int model, z3. The defect found on the snapshot (Dnf.walk_and returned [] when a product "
+         "conjunction simplifies to true; scratch/fixes/C12-dnf-true-conjunct.md) has since been repaired in /repo; an inequivalent DNF is labelled by whether the input has a "
+         "true constant-only literal under a conjunction, so that such a finding can be recorded narrowly.",
 )
